@@ -191,6 +191,15 @@ func (fx *fctx) evalMulti(st *State, x ast.Expr, n int) []*Value {
 	case *ast.IndexExpr:
 		if n == 2 {
 			bt := e.P.Info.TypeOf(y.X)
+			if mt := e.mapModelled(bt); mt != nil {
+				h := e.mapHeapsOf(mt)
+				m := fx.eval(st, y.X)
+				k := fx.eval(st, y.Index)
+				okT := e.mapHas(st, h, m.Tm, k.Tm)
+				val := &Value{T: mt.Elem(), Tm: ts.Ite(okT, e.mapGet(st, h, m.Tm, k.Tm), e.zeroValue(mt.Elem()).Tm)}
+				e.assumeType(st, val)
+				return []*Value{val, {T: types.Typ[types.Bool], Tm: okT}}
+			}
 			if m, ok := bt.Underlying().(*types.Map); ok {
 				fx.eval(st, y.X)
 				fx.eval(st, y.Index)
@@ -573,12 +582,64 @@ func (fx *fctx) loopContract(s ast.Stmt) (*LoopContract, int) {
 // execLoop is the common cut-point treatment:
 // establish invariant; havoc modified state; assume invariant; run cond+body+post; check preservation; exit.
 func (fx *fctx) execLoop(st *State, s ast.Stmt, cond func(*State) *Term, body func(*State) *State, post func(*State) *State, nodes []ast.Node, hiddenIdx *types.Var) *State {
+	return fx.execLoopH(st, s, cond, body, post, nodes, hiddenIdx, nil)
+}
+
+// execPeeled: a loop declared `peel` runs at most once: the body is executed once from the state before the loop
+// (nothing is havocked, no invariant is needed) and the obligation is that the back edge cannot be taken.
+// Typical: compare-and-swap retry loops, which never retry in a sequential execution.
+func (fx *fctx) execPeeled(st *State, s ast.Stmt, cond func(*State) *Term, body func(*State) *State, post func(*State) *State, tag string, ord int) *State {
+	e := fx.e
+	ts := e.ts
+	head := st.clone()
+	c := cond(head)
+	bodySt := head.clone()
+	bodySt.branch(c)
+	exitSt := head.clone()
+	exitSt.branch(ts.Not(c))
+	jf := &jumpFrame{isLoop: true, label: fx.pendingLabel}
+	fx.pendingLabel = ""
+	fx.jumps = append(fx.jumps, jf)
+	fx.runHooks(bodySt, "loopbegin", ord, "", s, nil)
+	end := body(bodySt)
+	fx.jumps = fx.jumps[:len(fx.jumps)-1]
+	for _, back := range append([]*State{end}, jf.conts...) {
+		if back == nil || back.dead {
+			continue
+		}
+		if post != nil {
+			back = post(back)
+		}
+		if back.dead {
+			continue
+		}
+		// a second evaluation of the condition that fails is a normal exit
+		c2 := cond(back)
+		again := back.clone()
+		again.branch(c2)
+		fx.assert(again, tag+"/peel", "no-second-iteration", ts.False(), s, fx.props, "a loop declared `peel` never starts a second iteration")
+		out := back.clone()
+		out.branch(ts.Not(c2))
+		jf.breaks = append(jf.breaks, out)
+	}
+	exits := append([]*State{exitSt}, jf.breaks...)
+	out := e.merge(exits)
+	if !out.dead {
+		fx.runHooks(out, "loopexit", ord, "", s, nil)
+	}
+	return out
+}
+
+func (fx *fctx) execLoopH(st *State, s ast.Stmt, cond func(*State) *Term, body func(*State) *State, post func(*State) *State, nodes []ast.Node, hiddenIdx *types.Var, extraHavoc func(*State)) *State {
 	e := fx.e
 	ts := e.ts
 	lc, ord := fx.loopContract(s)
 	tag := fmt.Sprintf("loop%d", ord)
 	if ord < 0 {
 		tag = fmt.Sprintf("inl.loop%d", -ord)
+	}
+	if lc != nil && lc.Peel {
+		return fx.execPeeled(st, s, cond, body, post, tag, ord)
 	}
 	pos := s.Pos()
 	if fs, ok := s.(*ast.ForStmt); ok {
@@ -646,6 +707,9 @@ func (fx *fctx) execLoop(st *State, s ast.Stmt, cond func(*State) *Term, body fu
 	}
 	if hiddenIdx != nil {
 		h.vars[hiddenIdx] = e.havocValue(h, hiddenIdx.Type(), "rangeidx")
+	}
+	if extraHavoc != nil {
+		extraHavoc(h)
 	}
 	// ghost variables assigned by hooks located inside the loop
 	for _, name := range fx.ghostAssignedIn(s) {
@@ -870,6 +934,9 @@ func (fx *fctx) execRange(st *State, s *ast.RangeStmt) *State {
 		_ = extra
 		return fx.execLoop(st, s, cond, body, post, nodes, idxVar)
 	case *types.Map, *types.Basic, *types.Array, *types.Pointer, *types.Chan, *types.Signature:
+		if mt := e.mapModelled(xt); mt != nil {
+			return fx.rangeModelled(st, s, mt, keyVar, valVar)
+		}
 		// iteration over an unmodelled sequence: arbitrary number of iterations with arbitrary elements
 		if _, ok := u.(*types.Basic); ok && u.(*types.Basic).Info()&types.IsInteger != 0 {
 			e.unsup(s, "range over integer")
